@@ -168,7 +168,7 @@ class Ctx:
         if o[0] == "join":
             return s.join(objs["B" if o[1] == "A" else "A"])
         if o[0] == "rt":
-            hf = s._hash_function
+            hf = self.cur_hf       # the hash function the harness constructed the sketch with (None = the library default)
             if o[2] == "file":
                 path = os.path.join(self.tmp, "rl.cms")
                 s.export(path)
@@ -206,6 +206,7 @@ class Ctx:
         if self.strategy:
             hf = None if self.strategy == "fnv" else strategy_fn(self.strategy)
         objs = {"A": self.new(hf), "B": self.new(hf)}
+        self.cur_hf = hf
         self.opno = 0
         last_ret = {"A": {}, "B": {}}
         try:
